@@ -488,12 +488,53 @@ pub fn run(ctx: &Ctx, st: &mut Stats) -> Vec<Violation> {
     }
     // R10: order-permutation differential in fresh processes (see c11_order.rs)
     v.extend(super::c11_order::run(ctx, st));
+    if !v.is_empty() {
+        return v;
+    }
+    // R11: long single-thread histories (see soak.rs): the result may not depend on the number of earlier calls
+    v.extend(super::soak::run(ctx, st, "C11", soak_jobs(ctx)));
     v
+}
+
+/// every conversion edge x four config variants (matrix, range, transfer, primaries changed) x periods
+fn soak_jobs(ctx: &Ctx) -> Vec<super::soak::Job> {
+    use super::soak::{with_periods, Side, PERIODS};
+    let mut jobs = Vec::new();
+    for kind in [Kind::Yuv8, Kind::Yuv16, Kind::Rgb, Kind::Lin, Kind::Xyb, Kind::Hsl] {
+        for (ei, edge) in edges_from(kind).into_iter().enumerate() {
+            let depth = if kind == Kind::Yuv8 { 8 } else { 10 };
+            let a = crate::api::cfg(MC::BT709, yuvxyb::TransferCharacteristic::BT1886, CP::BT709, depth, false, (0, 0));
+            let mut variants = Vec::new();
+            let mut m = a;
+            m.matrix_coefficients = MC::BT2020NonConstantLuminance;
+            variants.push(m);
+            let mut r = a;
+            r.full_range = true;
+            variants.push(r);
+            let mut t = a;
+            t.transfer_characteristics = yuvxyb::TransferCharacteristic::SRGB;
+            variants.push(t);
+            let mut p = a;
+            p.color_primaries = CP::BT2020;
+            variants.push(p);
+            for (vi, b) in variants.into_iter().enumerate() {
+                // the light mode (secondary build configurations) keeps one variant per edge
+                if ctx.light && vi != ei % 4 {
+                    continue;
+                }
+                jobs.extend(with_periods(Side { kind, edge, cfg: a }, Side { kind, edge, cfg: b }, &PERIODS));
+            }
+        }
+    }
+    jobs
 }
 
 pub fn replay(v: &Value) -> Result<(), String> {
     if v.get("part").and_then(|p| p.as_str()) == Some("history") {
         return super::c11_hist::replay(v);
+    }
+    if v.get("part").and_then(|p| p.as_str()) == Some("soak") {
+        return super::soak::replay("C11", v);
     }
     if v.get("part").and_then(|p| p.as_str()) == Some("order") {
         return super::c11_order::replay(v);
@@ -501,4 +542,4 @@ pub fn replay(v: &Value) -> Result<(), String> {
     check(&Case::from_json(v).ok_or("bad case")?, &mut Stats::new()).map_err(|v| v.message)
 }
 
-pub const RULE: &str = "cases = (source type in {Yuv<u8>, Yuv<u16>, Rgb, LinearRgb, Xyb, Hsl}, any working config (7 standard + 5 primaries-derived matrices) with one of 6 subsamplings, size 1..=64 x 1..=64 (one case in seven: a thin image 1025..4200 pixels wide; one in 300: a real-size frame of 32768 .. 2 M pixels) rounded to a multiple of the subsampling, random content (a third of the images with related neighbours: runs, partly equal pixels, pixels equal to the converted previous pixel), two independent padding layouts 0..=32 with different padding contents) generated by proptest; every conversion edge leaving the source type is run (18 From/TryFrom impls in total, by reference and by value, u8 and u16 outputs). Metamorphic relations: R1 dimensions preserved; R2 output pixel i is bit-identical to the conversion of the 1x1 image made of input pixel i (YUV sources: Y(x,y) with the chroma sample at (x>>ss_x, y>>ss_y)), on all pixels of images up to 256 pixels and 127 positions (corners + random) of larger ones; R3 encode to subsampled YUV: luma equals the 4:4:4 luma plane, each chroma sample equals the 4:4:4 chroma of a pixel of its own block, plane sizes (w>>ss_x, h>>ss_y); R4 YUV sources rebuilt with another padding/stride and other padding contents give bit-identical output; R5 sources compare equal to a clone taken before; R6 a second run is bit-identical; R7 a float source obtained through an earlier conversion from a bland image and overwritten through data_mut() converts exactly like a fresh image with the same data; R8 the result is unchanged after conversions with decoy configs (one field changed) ran on the same thread, and equals the result computed on a fresh thread; R9 model-based call histories: 3..12 operations (construct, convert with one of 4 configs differing in one field, paint through data_mut()) over a pool of 3 image slots, every conversion compared with the same conversion of a replica rebuilt from the observable state (data, dims, labels) on a fresh thread; R10 order-permutation differential: a fixed list of ~480 constructor and conversion calls (tiny and real-size images, configs differing in one field, Unspecified metadata, frame shapes of equal area) executed in four different orders, each in a fresh process, must give the same result call by call. non-trivial = image with w>1 and h>1; distinct = by hash of the case";
+pub const RULE: &str = "cases = (source type in {Yuv<u8>, Yuv<u16>, Rgb, LinearRgb, Xyb, Hsl}, any working config (7 standard + 5 primaries-derived matrices) with one of 6 subsamplings, size 1..=64 x 1..=64 (one case in seven: a thin image 1025..4200 pixels wide; one in 300: a real-size frame of 32768 .. 2 M pixels) rounded to a multiple of the subsampling, random content (a third of the images with related neighbours: runs, partly equal pixels, pixels equal to the converted previous pixel), two independent padding layouts 0..=32 with different padding contents) generated by proptest; every conversion edge leaving the source type is run (18 From/TryFrom impls in total, by reference and by value, u8 and u16 outputs). Metamorphic relations: R1 dimensions preserved; R2 output pixel i is bit-identical to the conversion of the 1x1 image made of input pixel i (YUV sources: Y(x,y) with the chroma sample at (x>>ss_x, y>>ss_y)), on all pixels of images up to 256 pixels and 127 positions (corners + random) of larger ones; R3 encode to subsampled YUV: luma equals the 4:4:4 luma plane, each chroma sample equals the 4:4:4 chroma of a pixel of its own block, plane sizes (w>>ss_x, h>>ss_y); R4 YUV sources rebuilt with another padding/stride and other padding contents give bit-identical output; R5 sources compare equal to a clone taken before; R6 a second run is bit-identical; R7 a float source obtained through an earlier conversion from a bland image and overwritten through data_mut() converts exactly like a fresh image with the same data; R8 the result is unchanged after conversions with decoy configs (one field changed) ran on the same thread, and equals the result computed on a fresh thread; R9 model-based call histories: 3..12 operations (construct, convert with one of 4 configs differing in one field, paint through data_mut()) over a pool of 3 image slots, every conversion compared with the same conversion of a replica rebuilt from the observable state (data, dims, labels) on a fresh thread; R10 order-permutation differential: a fixed list of ~480 constructor and conversion calls (tiny and real-size images, configs differing in one field, Unspecified metadata, frame shapes of equal area) executed in four different orders, each in a fresh process, must give the same result call by call; R11 long single-thread histories: for every conversion edge, four config variants and periods P in {255, 256, 65535, 65536}, 2P+3 conversions of 1x1 images (call j = pixel j mod P under config (j / P) mod 2) must each be bit-identical to the corresponding pixel of the whole P x 1 image converted on a fresh thread (no dependence on the number of earlier calls: wrapping epochs / generation counters). non-trivial = image with w>1 and h>1; distinct = by hash of the case";
